@@ -756,11 +756,16 @@ def check_property(pid, tier, seed):
     undecided += [k["name"] + ": " + k["undecided"] for k in kani if k.get("undecided")]
     # failures relevant to this property
     fails = []
+    undecided_extra = []
     for u in units:
         sel = spec.get("select", {}).get(u["unit"])
         for f in u["failures"]:
             if sel is None or sel(f["obligation"]):
                 fails.append(f)
+            elif not f.get("label") and any(o["name"].endswith("%s.safety" % f["fn"]) and sel(o["name"]) for o in u["obligations"]):
+                # an unlabelled proof step (a loop invariant, an assertion) of a function whose safety row carries this property no longer holds: the verifier then
+                # assumes it for the rest of the body, so "no panic" is not decided for that function - neither an alarm nor a pass
+                undecided_extra.append("%s: an unlabelled proof step of fn %s fails (%s: %s); its safety obligation is not decided" % (u["unit"], f["fn"], f["kind"], f.get("text", "")[:120]))
         if sel is not None:
             # only the obligations that carry this property are reported (and counted) in its evidence
             u["obligations"] = [o for o in u["obligations"] if sel(o["name"])]
@@ -773,6 +778,7 @@ def check_property(pid, tier, seed):
                 fails.append({"obligation": rec["obligation"], "unit": w["unit"], "kind": "sweep", "label": rec["obligation"].split(".", 1)[1],
                               "message": "executed witness disagrees with the contract's oracle", "text": str(rec.get("input"))[:200],
                               "rendered": "", "concrete": rec})
+    undecided += undecided_extra
     kf = findings.load()
     known, violations = [], []
     seen = set()
